@@ -91,6 +91,29 @@ def decode(event, strings, via):
         return OsLogEvent.from_raw_log_event(reorder(copy.deepcopy(event), via), strings)
     if via == 'direct':
         return OsLogEvent.from_raw_log_event(copy.deepcopy(event), strings)
+    if via == 'v3-sparse':
+        # the dump numbers its strings 1, 4, 7, ... (no slot 0, gaps between all of them): every reference is renumbered alike
+        def slot(k):
+            return 3 * k + 1
+
+        def renum(ev):
+            ev = copy.deepcopy(ev)
+            for k in ('cm', 'pip', 'p', 'sip', 'send', 'sub', 'cat', 'f', 'sn'):
+                if k in ev:
+                    ev[k] = slot(ev[k])
+            for seg in (ev.get('dm') or {}).get('seg', []):
+                if 'lp' in seg:
+                    seg['lp'] = slot(seg['lp'])
+                for k in ('rs', 'tn', 'ty'):
+                    if k in seg.get('p', {}):
+                        seg['p'][k] = slot(seg['p'][k])
+                if 't' in seg.get('p', {}):
+                    seg['p']['t'] = [slot(x) for x in seg['p']['t']]
+                if seg.get('a', {}).get('c') == 2 and 'or' in seg['a']:
+                    seg['a']['or'] = slot(seg['a']['or'])
+            return ev
+        event = renum(event)
+        strings = {slot(k): v for k, v in strings.items()}
     rev = {v: k for k, v in strings.items()}
     blob = B.v3([(1, 10, 'A')], [[]], [B.v3_block(B.TAG_LOG_STRINGS, B.bplist({'StringIndex': rev})),
                                       B.v3_block(B.TAG_LOG_EVENTS, B.bplist({'Events': [event]}))])
@@ -361,12 +384,16 @@ class C16(Check):
                 for sub in itertools.combinations(KEYS, k):
                     self._rec(acc, set(sub), 'v3')
                     self._rec(acc, set(KEYS) - set(sub), 'v3')
+                    self._rec(acc, set(sub), 'v3-sparse')
+                    self._rec(acc, set(KEYS) - set(sub), 'v3-sparse')
                     for via in ('reversed', 'sorted'):
                         self._rec(acc, set(sub), via)
                         self._rec(acc, set(KEYS) - set(sub), via)
             # loss-window time zones that differ from the record's own
             self._rec(acc, {'lsutz', 'leutz', 'lsud', 'leud'}, 'direct', {'utz': {'mw': 7, 'dt': 1}, 'lsutz': {'mw': -60, 'dt': 0}, 'leutz': {'mw': 300, 'dt': 1}})
         elif kind == 'dm1':
+            for seg in segment_shapes()[::7]:
+                self._rec(acc, {'dm'}, 'v3-sparse', {'dm': {'pc': 1, 's': 2, 'seg': [seg]}})
             for seg in segment_shapes():
                 for via in ('direct', 'reversed', 'sorted'):
                     self._rec(acc, {'dm'}, via, {'dm': {'pc': 1, 's': 2, 'seg': [seg]}})
